@@ -95,9 +95,12 @@ impl<T> Array<T> {
         if axis.0 >= self.dimensions() || index >= self.shape[axis.0] {
             None
         } else {
-            let offset = index * self.strides[axis.0];
-            // An array with an axis of length zero has no data, so the view is empty as well
-            let data = self.data.get(offset..).unwrap_or(&[]);
+            // An array with an axis of length zero has no data, so the view is empty as well (and
+            // the offset may not even be representable when its other axes are absurdly long)
+            let data = index
+                .checked_mul(self.strides[axis.0])
+                .and_then(|offset| self.data.get(offset..))
+                .unwrap_or(&[]);
             let shape = self.shape.remove_axis(axis);
             let strides = self.strides.remove_axis(axis);
 
